@@ -464,4 +464,30 @@ structure Mirror (c p : Core) : Prop where
   s : ∀ k, lookupBy (·.dh) c.tabs.states k = lookupBy (·.dh) p.tabs.states k
   c : ∀ k, lookupBy (·.h) c.tabs.cstates k = lookupBy (·.h) p.tabs.cstates k
 
+/-! ### C06: reports drawn from what a provider published -/
+
+/-- the reports / Get answers a provider published, with their version groups -/
+structure Source where
+  vg : VersionGroup
+  states : List SState
+  cstates : List CState
+
+def Source.ofReport (r : Report) : Source := ⟨r.vg, allStates r, allCStates r⟩
+def Source.ofSnapshot (s : Snapshot) : Source := ⟨s.vg, s.states, s.cstates⟩
+
+/-- what the provider guarantees about everything it publishes under one SequenceId (C02): the StateVersion of a
+    state never decreases while the MdibVersion grows — also across deletion and re-creation of the handle -/
+def Coherent (pool : List Source) : Prop :=
+  ∀ a ∈ pool, ∀ b ∈ pool, a.vg.seq = b.vg.seq → a.vg.ver ≤ b.vg.ver →
+    (∀ x ∈ a.states, ∀ y ∈ b.states, x.dh = y.dh → x.sv ≤ y.sv) ∧
+    (∀ x ∈ a.cstates, ∀ y ∈ b.cstates, x.h = y.h → x.sv ≤ y.sv)
+
+/-- every state the consumer holds was published at an MdibVersion that is not newer than the consumer's -/
+def Justified (pool : List Source) (c : Core) : Prop :=
+  (∀ x ∈ c.tabs.states, ∃ a ∈ pool, a.vg.seq = c.vg.seq ∧ a.vg.ver ≤ c.vg.ver ∧ x ∈ a.states) ∧
+  (∀ x ∈ c.tabs.cstates, ∃ a ∈ pool, a.vg.seq = c.vg.seq ∧ a.vg.ver ≤ c.vg.ver ∧ x ∈ a.cstates)
+
+instance (pool : List Source) : Decidable (Coherent pool) := by unfold Coherent; infer_instance
+instance (pool : List Source) (c : Core) : Decidable (Justified pool c) := by unfold Justified; infer_instance
+
 end Sdc.Consumer
